@@ -574,7 +574,48 @@ func buildC18(cfg *mon.Config) []*mon.Sub {
 			}
 		},
 	}
-	var subs = []*mon.Sub{exprs, resolve, tmpl}
+	indep := &mon.Sub{
+		Name:          "default-collections-independent",
+		Rule:          "two default function collections (and two calculators) are built; removing a function from one, adding a custom function to one, clearing one must not show in the other or in a collection built afterwards (37 functions, all found by name); the same for two calculators' default variable collections; enumerated over the 37 names",
+		Exhaustive:    true,
+		DistinctByGen: true,
+		Floor:         10,
+		Gen: func(emit func(string)) {
+			for _, n := range c08Names {
+				emit(n)
+			}
+		},
+		Exec: func(c *mon.Case) {
+			c.NonTrivial()
+			name := c.Payload
+			a, b := functions.NewDefaultFunctionCollection(), functions.NewDefaultFunctionCollection()
+			ca, cb := calculator.NewExpressionCalculator(), calculator.NewExpressionCalculator()
+			a.RemoveByName(name)
+			ca.DefaultFunctions().RemoveByName(name)
+			custom := functions.NewDelegatedFunction("custom_"+name, func(p []*variants.Variant, o variants.IVariantOperations) (*variants.Variant, error) {
+				return variants.VariantFromInteger(1), nil
+			})
+			a.Add(custom)
+			ca.DefaultFunctions().Add(custom)
+			ca.DefaultVariables().Add(variables.NewVariable("leak", variants.VariantFromInteger(1)))
+			fresh := functions.NewDefaultFunctionCollection()
+			for label, fc := range map[string]functions.IFunctionCollection{"second collection": b, "collection built afterwards": fresh, "second calculator": cb.DefaultFunctions(), "calculator built afterwards": calculator.NewExpressionCalculator().DefaultFunctions()} {
+				if fc.Length() != 37 || fc.FindByName(name) == nil || fc.FindByName("custom_"+name) != nil {
+					c.Failf("default function collections share state", "after RemoveByName(%q) and Add(custom) on one default collection, the %s has %d functions, %q found=%v, custom found=%v", name, label, fc.Length(), name, fc.FindByName(name) != nil, fc.FindByName("custom_"+name) != nil)
+					return
+				}
+			}
+			if cb.DefaultVariables().Length() != 0 {
+				c.Failf("default variable collections share state", "a variable added to one calculator shows in another")
+				return
+			}
+			a.Clear()
+			if b.Length() != 37 {
+				c.Failf("default function collections share state", "Clear on one default collection emptied another")
+			}
+		},
+	}
+	var subs = []*mon.Sub{exprs, resolve, tmpl, indep}
 	for _, kind := range []string{"variables", "functions"} {
 		kind := kind
 		subs = append(subs, &mon.Sub{
